@@ -967,6 +967,17 @@ func (e *endpoint) HandlePacket(r *stack.Route, id stack.TransportEndpointID, vv
 	// datagram and must not reach the application.
 	vv.CapLength(int(hdr.Length()))
 
+	// RFC 768 / RFC 1122 4.1.3.4: 校验和不为0而又不正确的数据报必须丢弃
+	// (IPv6下没有"不带校验和"的数据报)
+	if hdr.Checksum() != 0 || r.NetProto == header.IPv6ProtocolNumber {
+		xsum := r.PseudoHeaderChecksum(ProtocolNumber)
+		xsum = header.Checksum(vv.ToView()[header.UDPMinimumSize:], xsum)
+		if hdr.CalculateChecksum(xsum, hdr.Length()) != 0xffff {
+			e.stack.Stats().UDP.MalformedPacketsReceived.Increment()
+			return
+		}
+	}
+
 	vv.TrimFront(header.UDPMinimumSize)
 
 	e.rcvMu.Lock()
